@@ -411,6 +411,12 @@ func (cx *evalCtx) ident(name string) (TV, error) {
 	if cx.varsSt != nil {
 		vs = cx.varsSt
 	}
+	// a named result that lives in memory: the bare name means the result even where a local of the same name shadows it
+	if cx.useVars && !cx.inOld && cx.fr != nil && cx.fr.namedRes != nil && cx.binds[name] == nil {
+		if a, ok := cx.fr.namedRes[name]; ok {
+			return cx.run.load(cx.st, a), nil
+		}
+	}
 	if cx.useVars && (!cx.inOld || cx.varsAfter) {
 		if v, ok := vs.vars[name]; ok {
 			if o, isO := v.(*OneSided); isO {
@@ -567,7 +573,8 @@ func (cx *evalCtx) goExpr(e ast.Expr) (TV, error) {
 				if _, isBind := cx.binds[id.Name]; !isBind {
 					_, isVar := cx.st.vars[id.Name]
 					_, isAVar := cx.st.vars["&"+id.Name]
-					if !(cx.useVars && (isVar || isAVar)) {
+					isLocal := cx.fr != nil && cx.fr.fn != nil && cx.run.eng.localVarType(cx.fr.fn, id.Name) != nil
+					if !(cx.useVars && (isVar || isAVar)) && !isLocal {
 						if p := cx.lookupPkg(id.Name); p != nil && (cx.pkg == nil || cx.pkg.Scope().Lookup(id.Name) == nil) {
 							if o := p.Scope().Lookup(x.Sel.Name); o != nil {
 								return cx.object(o)
